@@ -284,4 +284,8 @@ def run(facts, tier, ctx):
     out += lib_fill.forward_impls(facts)
     out += lib_fill.context_siblings(facts)
     out += layout(facts)
+    # the digest is over samples of the byte-rounded width: a packed-byte delivery of another width must be refused
+    # before it is hashed (C17 PARAMCHECK on the digest contexts)
+    from . import c17
+    out += [r for r in c17.run(facts, tier, ctx) if r.rule == "PARAMCHECK"]
     return out
